@@ -2051,7 +2051,9 @@ def restart_copy(obj):
     buf = io.BytesIO()
     _Pickler(buf, protocol=pickle.HIGHEST_PROTOCOL).dump(obj)
     buf.seek(0)
-    return _Unpickler(buf).load()
+    from sim import universe as _u
+    with _u.no_compiled_cache_growth():
+        return _Unpickler(buf).load()
 
 
 # ====================================================================== shrinking aid
